@@ -27,6 +27,7 @@ Games ==
       [] Family = "duplabel" -> DescribeAll("duplabel", DupLabelGames)
       [] Family = "minreachrank" -> DescribeAll("minreachrank", MinReachRankGames)
       [] Family = "finaldeadend" -> DescribeAll("finaldeadend", FinalDeadEndGames)
+      [] Family = "keycollide" -> DescribeAll("keycollide", KeyCollideGames)
       [] Family = "zerow" -> DescribeAll("zerow", ZeroWGames)
       [] Family = "slow" -> DescribeAll("slow", Pick(K, SlowGames))
       [] Family = "bigrew" -> DescribeAll("bigrew", Pick(K, BigRewGames))
